@@ -67,12 +67,20 @@ func runC14(c *Ctx) {
 	}
 	dummy := &codec.NTLMChallenge{ServerChallenge: []byte("12345678"), TargetInfo: []byte{0, 0, 0, 0}}
 	pendingInsider, pendingSess := "", ""
+	forcedUser, forcedSteps, forcedSess := "", 0, ""
 	for i := 0; i < nops && c.S.Viol == nil; i++ {
 		sn := names[c.T.Choose(len(names))]
 		s := sess[sn]
-		kind := c.T.Weighted(5, 5, 2, 2, 2, 2, 2, 2, 1, 1, 1, 3, 2, 2)
+		kind := c.T.Weighted(5, 5, 2, 2, 2, 2, 2, 2, 1, 1, 1, 3, 2, 2, 0, 1, 1)
 		if pendingInsider != "" {
 			kind = 14 // second half of the two-message sequence started below
+		}
+		if forcedSteps == 2 {
+			kind, forcedSteps = 0, 1
+			sn, s = forcedSess, sess[forcedSess]
+		} else if forcedSteps == 1 {
+			kind, forcedSteps = 17, 0
+			sn, s = forcedSess, sess[forcedSess]
 		}
 		var msg, what string
 		mustAuth := ""
@@ -142,6 +150,41 @@ func runC14(c *Ctx) {
 			}
 		case 7:
 			what, msg = "empty-message", ""
+		case 15:
+			// the user database takes 2.5-4 s over this look-up (the caller waits up to 5 s); the
+			// NEXT message on this session names another user and reuses this user's key
+			user := users[c.T.Choose(len(users))].Username
+			ch := s.chal
+			if ch == nil {
+				ch = dummy
+			}
+			node.DBDelay, node.DBSlowCalls = time.Duration(2500+c.T.Choose(1500))*time.Millisecond, 1
+			what, msg = "auth-correct-while-the-database-is-slow("+user+")", mkType3(user, db[user], "", ch)
+			if s.chal != nil && db[user] != "" && s.lastOK && time.Since(s.firstTouch) < 50*time.Second {
+				mustAuth = user
+			}
+			pendingInsider, pendingSess = user, sn
+			c.S.Count("fault.authdb.slow")
+		case 16:
+			// several failed attempts for one user in a row, from sessions of their own, then
+			// (next message) a client that knows the password starts an exchange
+			user := users[c.T.Choose(len(users))].Username
+			for k := 0; k < 5+c.T.Choose(4); k++ {
+				bs := fmt.Sprintf("10.7.9.%d:%d", 1+k, 59000+k)
+				if r0 := node.CallNTLM(bs, b64(codec.NTLMNegotiate()), 5*time.Second); r0.Resp != nil && r0.Resp.NtlmMessage != "" {
+					raw, _ := base64.StdEncoding.DecodeString(r0.Resp.NtlmMessage)
+					if bch, err := codec.ParseNTLMChallenge(raw); err == nil {
+						rb := node.CallNTLM(bs, mkType3(user, "guess number "+fmt.Sprint(k), "", bch), 5*time.Second)
+						if rb.Resp != nil && rb.Resp.Authenticated {
+							c.S.Fail("C14", "authenticated-without-proof", "a wrong password for %q was authenticated", user)
+						}
+					}
+				}
+			}
+			log = append(log, fmt.Sprintf("burst-of-wrong-passwords(%s)", user))
+			forcedUser, forcedSteps, forcedSess = user, 2, sn
+			c.S.Count("probe.wrong_password_burst")
+			continue
 		case 13:
 			// a correct proof inside an authenticate message with unusual (legal) flags, e.g. key
 			// exchange requested but no session key sent; whatever the verifier makes of it, the
@@ -159,6 +202,19 @@ func runC14(c *Ctx) {
 			nt, lm, _ := codec.NTLMv2Response(user, db[user], "", ch.ServerChallenge, c.T.Bytes(8, 1), ch.TargetInfo, time.Now())
 			what, msg = fmt.Sprintf("auth-correct-odd-flags(%s,flags#%d,sessionkey=%d)", user, fl, len(ek)), b64(codec.NTLMAuthenticateRaw(user, "", "WS", nt, lm, codec.NTLMOddFlags[fl], ek))
 			pendingInsider, pendingSess = user, sn
+		case 17:
+			// (after a burst of failures) the user answers the challenge just given
+			user := forcedUser
+			ch := s.chal
+			if ch == nil {
+				ch, what = dummy, "auth-correct-password-without-negotiate("+user+")"
+			} else {
+				what = "auth-correct-after-burst(" + user + ")"
+				if db[user] != "" && s.lastOK && time.Since(s.firstTouch) < 55*time.Second {
+					mustAuth = user
+				}
+			}
+			msg = mkType3(user, db[user], "", ch)
 		case 14:
 			other := pendingInsider
 			pendingInsider = ""
